@@ -30,7 +30,7 @@ func (c16) Cases(tier string) int {
 }
 
 func (c16) Rule() string {
-	return "batched POSTs of 1-5 operations (multi-step queries, list fan-out, a mutation, an operation that errs at execution, an operation without query, duplicates) named Op0..Opk, half of them against a gateway with the automatic query-plan cache where operations may carry a persisted-query hash next to their text; service calls are gated per operation name and a controller lets the operations complete in a forced order: every permutation for batches of up to 3 (quick) / 4 (thorough) operations, random permutations above; the i-th element of the response list must equal the response of operation i POSTed alone; built with -race; non-trivial = at least 2 operations that contact services; distinct = distinct (batch, completion order)"
+	return "every sixth case a multipart batch of 2-4 members with 1-2 files whose map entries name several members (each member must be executed with the variables it gets alone with its part of the map); batched POSTs of 1-5 operations (multi-step queries, list fan-out, a mutation, an operation that errs at execution, an operation without query, duplicates) named Op0..Opk, half of them against a gateway with the automatic query-plan cache where operations may carry a persisted-query hash next to their text; service calls are gated per operation name and a controller lets the operations complete in a forced order: every permutation for batches of up to 3 (quick) / 4 (thorough) operations, random permutations above; the i-th element of the response list must equal the response of operation i POSTed alone; built with -race; non-trivial = at least 2 operations that contact services; distinct = distinct (batch, completion order)"
 }
 
 var batchQueries = []string{
@@ -99,7 +99,111 @@ func (g *opGate) drive(order []string, done <-chan struct{}) {
 	}
 }
 
+// multipartBatch: a batch sent as a multipart request, with files whose map entries name several members; every
+// member must be executed with the variables it gets when it is sent alone with its own part of the map
+func multipartBatch(c *Ctx, i int) CaseResult {
+	r := c.Rand(i + 52000000)
+	res := CaseResult{ID: fmt.Sprintf("gen:%d", i), Features: []string{"multipart-batch"}}
+	k := 2 + r.Intn(3)
+	var ops []interface{}
+	for j := 0; j < k; j++ {
+		ops = append(ops, map[string]interface{}{"query": `{ me { firstName } }`,
+			"variables": map[string]interface{}{"f": nil, "g": nil, "h": nil, "s": fmt.Sprintf("member-%d", j)}})
+	}
+	// every (member, variable) position is used by at most one path
+	type pos struct {
+		member int
+		name   string
+	}
+	var free []pos
+	for j := 0; j < k; j++ {
+		for _, n := range []string{"f", "g", "h"} {
+			free = append(free, pos{j, n})
+		}
+	}
+	r.Shuffle(len(free), func(a, b int) { free[a], free[b] = free[b], free[a] })
+	nfiles := 1 + r.Intn(2)
+	fileMap := map[string][]string{}
+	soloMaps := make([]map[string][]string, k)
+	for j := range soloMaps {
+		soloMaps[j] = map[string][]string{}
+	}
+	for fi := 0; fi < nfiles; fi++ {
+		np := 1 + r.Intn(3)
+		for ; np > 0 && len(free) > 0; np-- {
+			p := free[0]
+			free = free[1:]
+			key := fmt.Sprint(fi)
+			fileMap[key] = append(fileMap[key], fmt.Sprintf("%d.variables.%s", p.member, p.name))
+			soloMaps[p.member][key] = append(soloMaps[p.member][key], "variables."+p.name)
+		}
+	}
+	files := map[string]string{}
+	for key := range fileMap {
+		files[key] = "content-" + key
+	}
+	ob, _ := json.Marshal(ops)
+	mb, _ := json.Marshal(fileMap)
+	res.Key = string(ob) + string(mb)
+	run := func(form map[string]string, fs map[string]string) (*CaptureExec, int, string) {
+		capx := &CaptureExec{}
+		f, err := NewFed(FixedFed(), GenStore(rand.New(rand.NewSource(5)), false), gateway.WithExecutor(capx))
+		if err != nil {
+			return nil, 0, err.Error()
+		}
+		rec, p := HTTPCase{Method: "POST", Target: "/graphql", Form: form, Files: fs}.Serve(f.GW)
+		if p != nil {
+			return nil, 0, fmt.Sprint("panic: ", p)
+		}
+		return capx, rec.Code, ""
+	}
+	in := map[string]interface{}{"operations": string(ob), "map": string(mb)}
+	bx, bcode, berr := run(map[string]string{"operations": string(ob), "map": string(mb)}, files)
+	if berr != "" {
+		res.Fails = append(res.Fails, Failure{Channel: "harness", Classifier: "harness-error", What: berr, Input: in})
+		return res
+	}
+	inBatch := map[string]string{}
+	for _, v := range bx.Seen {
+		m, _ := markFiles(nilToEmpty(v)).(map[string]interface{})
+		inBatch[fmt.Sprint(m["s"])] = Canon(m)
+	}
+	for j := 0; j < k; j++ {
+		sb, _ := json.Marshal(ops[j])
+		smb, _ := json.Marshal(soloMaps[j])
+		sfiles := map[string]string{}
+		for key := range soloMaps[j] {
+			sfiles[key] = files[key]
+		}
+		sx, scode, serr := run(map[string]string{"operations": string(sb), "map": string(smb)}, sfiles)
+		if serr != "" {
+			res.Fails = append(res.Fails, Failure{Channel: "harness", Classifier: "harness-error", What: serr, Input: in})
+			return res
+		}
+		alone := "(not executed)"
+		if len(sx.Seen) == 1 {
+			alone = Canon(markFiles(nilToEmpty(sx.Seen[0])))
+		}
+		got, ok := inBatch[fmt.Sprintf("member-%d", j)]
+		if !ok {
+			got = "(not executed)"
+		}
+		if scode != bcode || alone != got {
+			res.Fails = append(res.Fails, Failure{Channel: "L0.batch-multipart", Classifier: "unclassified",
+				What:  fmt.Sprintf("member %d of a multipart batch is executed with other variables than when it is sent alone with its part of the map (status %d in the batch, %d alone): %s", j, bcode, scode, diffHint(alone, got)),
+				Input: in, Expected: alone, Observed: got})
+			return res
+		}
+	}
+	res.Nontrivial = true
+	res.Counters = map[string]int{"operations": k, "orders": 1}
+	return res
+}
+
 func (c16) Run(c *Ctx, i int) CaseResult {
+	if i%6 == 5 {
+		return multipartBatch(c, i)
+	}
 	r := c.Rand(i + 51000000)
 	k := 1 + r.Intn(5)
 	if r.Intn(6) == 0 {
